@@ -246,7 +246,12 @@ impl NoGoodStore {
                 NoGood::try_from_pair_iter(&mut val.iter().filter_map(|ng| ng.conclude(nogood)))
             })
             .try_fold(&mut result, |acc, ng| {
-                if ng.is_violating(acc) {
+                // a conflict is a literal which is concluded (or already set) with the opposite value
+                if !(&ng.active)
+                    .bitand(&acc.active)
+                    .bitand((&ng.value).bitxor(&acc.value))
+                    .is_empty()
+                {
                     log::trace!("ng conclusion violating");
                     None
                 } else {
